@@ -261,8 +261,56 @@ def pop_provenance(fn_hir, F=None):
         return True
     expanding = []
 
+    def is_helper_call(x):
+        cal = x.get("callee") or ""
+        return x.get("k") in ("MethodCall", "Call") and F is not None and re.match(r"^dmntk_feel_parser::parser::Parser::(<[^>]*>::)?\w+$", cal) \
+            and not cal.split("::")[-1].startswith("action_") and cal in F.hir and F.hir[cal] is not fn_hir and cal not in expanding and len(expanding) <= 2
+
+    def helper_components(n):
+        """`let (lhs, rhs) = self.pop_operands()?`: a private Parser method that pops and *returns* nodes - provenance of each component of its result"""
+        cal = n["callee"]
+        hh = F.hir[cal]
+        saved = dict(env)
+        expanding.append(cal)
+        walk_hir(hh["body"], visit)
+        expanding.pop()
+        body = strip(hh["body"])
+        ret = body["b"].get("e") if body.get("k") == "Block" else body
+        rets = [r["e"] for r, _ in find_hir(hh["body"], lambda x: x.get("k") == "Ret" and "e" in x)]
+        comps = None
+        for r in ([ret] if ret is not None else []) + rets:
+            r = strip(r)
+            while r.get("k") == "Call" and "Ctor" in (r.get("dk") or "") and (r.get("callee") or "").split("::")[-1] in ("Ok", "Some") and r.get("args"):
+                r = strip(r["args"][0])
+            if r.get("k") == "Call" and "Ctor" in (r.get("dk") or "") and (r.get("callee") or "").split("::")[-1] in ("Err", "None"):
+                continue
+            if r.get("k") == "Call" and (r.get("callee") or "").endswith("from_residual"):
+                continue          # the error exit of a `?`
+            cs = [prov(x) for x in r["es"]] if r.get("k") == "Tup" else [prov(r)]
+            if comps is None:
+                comps = cs
+            elif len(cs) == len(comps):
+                comps = [a | b2 for a, b2 in zip(comps, cs)]
+            else:
+                comps = [set().union(*comps, *cs)]
+        env.clear()
+        env.update(saved)
+        return comps
+
     def visit(n, parents):
         k = n.get("k")
+        if k == "LetStmt" and "e" in n:
+            hc = [x for x, _ in find_hir(n["e"], is_helper_call)]
+            if len(hc) == 1:
+                comps = helper_components(hc[0])
+                if comps is not None:
+                    pat = n["p"]
+                    if pat.get("k") == "Tuple" and len(pat.get("ps", [])) == len(comps):
+                        for q, c in zip(pat["ps"], comps):
+                            bind(q, set(c))
+                    else:
+                        bind(pat, set().union(*comps) if comps else set())
+                    return False
         if k in ("MethodCall", "Call") and n.get("callee") and expand_helper(n):
             return False
         if k == "LetStmt" and "e" in n:
